@@ -95,7 +95,7 @@ func (s *Session) unitsFor(prop string) ([]propUnit, error) {
 		if mod != "" {
 			has := false
 			for _, d := range []string{filepath.Join(repoRoot(), mod), filepath.Join(verifRoot(), "contracts", mod)} {
-				if _, err := os.Stat(filepath.Join(d, "contracts_verif.go")); err == nil {
+				if m, _ := filepath.Glob(filepath.Join(d, "contracts*_verif.go")); len(m) > 0 {
 					has = true
 				}
 			}
@@ -105,8 +105,11 @@ func (s *Session) unitsFor(prop string) ([]propUnit, error) {
 			// cheap pre-scan: does the contract file mention the property?
 			mention := false
 			for _, d := range []string{filepath.Join(repoRoot(), mod), filepath.Join(verifRoot(), "contracts", mod)} {
-				if b, err := os.ReadFile(filepath.Join(d, "contracts_verif.go")); err == nil && strings.Contains(string(b), prop) {
-					mention = true
+				ms, _ := filepath.Glob(filepath.Join(d, "contracts*_verif.go"))
+				for _, m := range ms {
+					if b, err := os.ReadFile(m); err == nil && strings.Contains(string(b), prop) {
+						mention = true
+					}
 				}
 			}
 			if !mention {
